@@ -166,6 +166,9 @@ func c04(r *Report) propMeta {
 	r.Rule("C04.R7", "store-key agreement: every point read/delete addresses a written key family")
 	r.StoreKeyAgreement("store-keys", "tss", 35, nil)
 
+	r.Rule("C04.R8", "E15 wire fields validated by their own type")
+	r.WireFieldsValidated("wire", "x/tss/types", []string{"MsgSubmitDKGRound1", "MsgSubmitDKGRound2", "MsgComplain", "MsgConfirm"}, 7)
+
 	return propMeta{
 		Decided: []string{
 			"R1 each DKG handler writes only when group.Status is its round, the member id belongs to the sender, nothing was submitted before, and the round's verification passed; the next round is queued exactly at count == group.Size (counted after the write); all complaints of one message name one complainant",
@@ -175,6 +178,7 @@ func c04(r *Report) propMeta {
 			"R5 ACTIVE only from ROUND_3 with no malicious member, FALLEN otherwise; group key = accumulated commit #0; member key = ComputeOwnPublicKey(all accumulated commits, member id); accumulation adds the new commit to the old one at the same index; EXPIRED only for unfinished groups after the creation period",
 			"R6 chain and daemon use the same FindMemberSlot(sender, receiver) and the daemon complains exactly when VerifySecretShare fails",
 			"R7 every KV-store Get/Has/Delete of x/tss uses a key builder of x/tss/types that some Set of the module also uses (a probe of an iteration prefix or of a sibling family is always-empty state)",
+			"R8 every pkg/tss-typed field of the four DKG messages (commits, one-time key, both proofs, encrypted shares, key-sym, complaint signature, own-key signature) reaches its own type's Validate() from ValidateBasic",
 		},
 		Undecided: []string{"that consistent commitments imply a shared key any threshold subset can use (algebra)", "'an honest member is never marked malicious' (needs the algebra behind R3)", "expiry interleavings"},
 		Assume:    []string{"secp256k1 / elgamal / schnorr primitives of pkg/tss", "msg handlers atomic"},
